@@ -80,6 +80,16 @@ pub fn cases(rng: &mut Rng, tier: &str) -> (Vec<Case>, bool) {
             all.push_str(&format!("\n{} {}", 100 * (k as u64 + 1) + n, rest));
         }
     }
+    // whole files in which a line number occurs twice and the LATER line is the longer one, with names that earn static
+    // warnings only there (the later line is the program; the static check must be talking about it too)
+    for (k, f) in [
+        "10 A = 1\n20 PRINT A\n10 A = 1 : PRINT \"X\" : B = 2",
+        "10 PRINT 1\n10 PRINT 1; 2; 3; Q; R$; S(1)\n20 PRINT \"end\"",
+        "10 X = 1\n20 PRINT X\n20 PRINT X : Y = X + 1 : Z$ = \"z\" : PRINT Y\n10 X = 2 : W = 5\n30 REM done",
+        "5 REM short\n5 FOR I = 1 TO 2 : PRINT I; J; K : NEXT I\n5 REM short again\n5 DATA 1, 2 : READ L, M : PRINT L + M + N",
+    ].iter().enumerate() {
+        cases.push(file_case(rng, tier, k, f, "curated-duplicates".into(), true));
+    }
     all.push_str(&format!("\n{} PRINT \"END\"", 100 * (forms.len() + 1)));
     cases.push(file_case(rng, tier, 0, &all, "curated-all".into(), true));
     (cases, false)
